@@ -1,8 +1,44 @@
 #![no_main]
+#![allow(dead_code, unused_imports, clippy::all)]
 //! Coverage-guided tier: libFuzzer bytes -> choice tape -> (grammar, input) -> the in-target oracles
-//! of the property checks (see harness/src/fuzz.rs).
+//! of the property checks (see harness/src/fuzz.rs). The harness is a binary crate; its modules are
+//! compiled into this target directly (same sources, `crate::` paths resolve because they sit at the
+//! crate root here too).
+#[path = "../../src/build.rs"]
+pub mod build;
+#[path = "../../src/build_a.rs"]
+pub mod build_a;
+#[path = "../../src/build_b.rs"]
+pub mod build_b;
+#[path = "../../src/build_c.rs"]
+pub mod build_c;
+#[path = "../../src/build_d.rs"]
+pub mod build_d;
+#[path = "../../src/build_e.rs"]
+pub mod build_e;
+#[path = "../../src/compare.rs"]
+pub mod compare;
+#[path = "../../src/driver.rs"]
+pub mod driver;
+#[path = "../../src/gen.rs"]
+pub mod gen;
+#[path = "../../src/grammar.rs"]
+pub mod grammar;
+#[path = "../../src/props/mod.rs"]
+pub mod props;
+#[path = "../../src/reference.rs"]
+pub mod reference;
+#[path = "../../src/run.rs"]
+pub mod run;
+#[path = "../../src/val.rs"]
+pub mod val;
+#[path = "../../src/worker.rs"]
+pub mod worker;
+#[path = "../../src/fuzz.rs"]
+pub mod fuzz;
+
 use libfuzzer_sys::fuzz_target;
 
 fuzz_target!(|data: &[u8]| {
-    cv::fuzz::fuzz_entry(data);
+    fuzz::fuzz_entry(data);
 });
